@@ -177,6 +177,57 @@ func (p *Program) FuncKey(fn *ssa.Function) string {
 // Func resolves "rel/pkg/path.Func", "rel/pkg/path.(T).M" or "var:rel/pkg/path.name" (the function literal a package
 // variable is initialised with); nil if absent.
 func (p *Program) Func(key string) *ssa.Function {
+	if strings.HasPrefix(key, "varfield:") {
+		// "varfield:rel/pkg.name.Field": the function literal stored in field Field of the record a package variable is
+		// initialised with (cobra commands: var xCmd = &cobra.Command{Run: func…})
+		rest := strings.TrimPrefix(key, "varfield:")
+		k := strings.LastIndex(rest, ".")
+		if k < 0 {
+			return nil
+		}
+		g := p.Global(rest[:k])
+		if g == nil {
+			return nil
+		}
+		initFn := g.Pkg.Func("init")
+		if initFn == nil {
+			return nil
+		}
+		var rec ssa.Value
+		for _, b := range initFn.Blocks {
+			for _, in := range b.Instrs {
+				if st, ok := in.(*ssa.Store); ok && st.Addr == ssa.Value(g) {
+					rec = st.Val
+				}
+			}
+		}
+		if rec == nil {
+			return nil
+		}
+		for _, b := range initFn.Blocks {
+			for _, in := range b.Instrs {
+				st, ok := in.(*ssa.Store)
+				if !ok {
+					continue
+				}
+				fa, ok := st.Addr.(*ssa.FieldAddr)
+				if !ok || fa.X != rec {
+					continue
+				}
+				if n, _ := fieldOf(fa.X.Type(), fa.Field); n != rest[k+1:] {
+					continue
+				}
+				switch v := st.Val.(type) {
+				case *ssa.Function:
+					return v
+				case *ssa.MakeClosure:
+					f, _ := v.Fn.(*ssa.Function)
+					return f
+				}
+			}
+		}
+		return nil
+	}
 	if strings.HasPrefix(key, "var:") {
 		g := p.Global(strings.TrimPrefix(key, "var:"))
 		if g == nil {
